@@ -136,3 +136,57 @@ Definition lua_running_ok (run skipped : list string) : bool :=
   forallb (fun g => existsb (fun r => String.eqb g (fst (fst r)) && String.eqb (snd (fst r)) "contract") reviewed_lua_running_c) run
   && forallb (fun g => existsb (fun r => String.eqb g (fst (fst r)) && String.eqb (snd (fst r)) "library") reviewed_lua_running_c) skipped
   && existsb (String.eqb "vm_pcall") run.
+
+(** The reviewed uses of the context table.  A host callback resolves its context with
+    [contexts[service]]; gen_vmguard_slots lists every store into / other load from [contexts],
+    every write of a context's [service] field and of the allocator variables, every use of the
+    service constants and every call of InitContext in the repository.  What the lists establish:
+    transactions store their context in slot [ctx.service], which is the execution mode given to
+    NewVmContext -- contract.BlockFactory (block production) or contract.ChainService (block
+    connection), nothing else; a query's [service] is only ever set by allocContextSlot; the table
+    has NumWorkers + 2 slots (with no worker no query runs). *)
+Definition reviewed_slot_sites : list (string * string * string) := [
+  ("Call", "store", "contexts[ctx.service] = ctx");
+  ("Create", "store", "contexts[ctx.service] = ctx");
+  ("InitContext", "var", "contexts = make([]*vmContext, maxContext)");
+  ("InitContext", "var", "maxContext = numCtx");
+  ("NewVmContext", "service", "init C.int(executionMode)");
+  ("allocContextSlot", "load", "contexts[index]");
+  ("allocContextSlot", "service", "ctx.service = C.int(index)");
+  ("allocContextSlot", "store", "contexts[index] = ctx");
+  ("allocContextSlot", "var", "lastQueryIndex = index");
+  ("freeContextSlot", "store", "contexts[ctx.service] = nil");
+  ("init", "var", "lastQueryIndex = ChainService")
+].
+Definition reviewed_slot_constant_uses : list (string * string * string) := [
+  ("chain/chainhandle.go:newBlockExecutor", "const", "ChainService");
+  ("chain/chainservice.go:NewChainService", "InitContext", "cfg.Blockchain.NumWorkers + 2");
+  ("consensus/impl/dpos/blockfactory.go:newTxExec", "const", "BlockFactory");
+  ("consensus/impl/raftv2/blockfactory.go:newTxExec", "const", "BlockFactory");
+  ("consensus/impl/sbp/sbp.go:newTxExec", "const", "BlockFactory");
+  ("contract/vm.go:allocContextSlot", "const", "ChainService");
+  ("contract/vm.go:init", "const", "ChainService");
+  ("contract/vm_callback.go:luaCheckTimeout", "const", "BlockFactory");
+  ("contract/vm_direct/vm_direct.go:LoadDummyChainEx", "InitContext", "3");
+  ("contract/vm_direct/vm_direct.go:newBlockExecutor", "const", "ChainService");
+  ("contract/vm_dummy/vm_dummy.go:LoadDummyChain", "InitContext", "3");
+  ("contract/vm_dummy/vm_dummy.go:luaTxCall.run", "const", "BlockFactory");
+  ("contract/vm_dummy/vm_dummy.go:luaTxDeploy.run", "const", "BlockFactory")
+].
+Definition sites_diff (a b : list (string * string * string)) : list (string * string * string) :=
+  filter (fun x => negb (existsb (site_eqb x) b)) a.
+Definition nat_of (n : string) (l : list (string * nat)) : nat :=
+  match find (fun x => String.eqb n (fst x)) l with Some x => snd x | None => 999 end.
+
+(** the configuration the slot model is instantiated with is the source's *)
+Definition slots_config_ok (consts : list (string * nat)) (init_last init_arg tx_store : string) (base loads : nat) : bool :=
+  Nat.eqb (nat_of "BlockFactory" consts) 0 && Nat.eqb (nat_of "ChainService" consts) 1 && Nat.eqb (nat_of "MaxVmService" consts) 2
+  && Nat.eqb (List.length consts) 3
+  && String.eqb init_last "ChainService" && String.eqb init_arg "cfg.Blockchain.NumWorkers + 2"
+  && Nat.eqb base (nat_of "ChainService" consts + 1) && String.eqb tx_store "contexts[ctx.service] = ctx" && Nat.leb 1 loads.
+Definition slot_sites_ok (sites uses : list (string * string * string)) : bool :=
+  match sites_diff sites reviewed_slot_sites, sites_diff reviewed_slot_sites sites,
+        sites_diff uses reviewed_slot_constant_uses, sites_diff reviewed_slot_constant_uses uses with
+  | [], [], [], [] => true
+  | _, _, _, _ => false
+  end.
